@@ -85,7 +85,8 @@ class C06(Check):
             'block exponents 4-16 and random master-hash sizes; start offsets {0,1,0x10,0x1234}; both case modes; image '
             'from an independent 3dbrew-layout builder; per case the Lean `repDir` predicate is evaluated on the image '
             '(so the walk theorem applies to it); lookups: every path with prefixes none, "/", "./", case-flipped and '
-            'missing neighbours; malformed stream: random byte/field mutations of header and tables; non-trivial = tree has >= 1 entry or an error')
+            'missing neighbours, paths with a missing directory above an existing last component, every lookup list run as a history '
+            '(immediate repeats, second pass in another order); malformed stream: random byte/field mutations of header and tables; non-trivial = tree has >= 1 entry or an error')
     trusted_base = [
         'Lean 4.33 kernel; axioms propext, Classical.choice, Quot.sound only',
         'the independent Python builder (3dbrew layout) is the specification of a packed RomFS; per generated image the '
@@ -294,6 +295,20 @@ class C06(Check):
                     probes.append((pre + p + 'x', None, None, False))
             probes.append(('/', 'dir', tree, True))
             probes.append(('.', 'dir', tree, True))
+            # paths with a missing directory in the middle whose LAST component does exist further up ('a/zz/f' next to 'a/f')
+            for p, kind, node in rng.sample(paths, min(len(paths), 6)):
+                comps = p.split('/')
+                for cut in range(len(comps)):
+                    cand = '/'.join(comps[:cut] + ['zz' + comps[-1][:2]] + [comps[-1]])
+                    if (cand.lower() if ci else cand) not in existing:
+                        probes.append((rng.pick(['', '/']) + cand, None, None, False))
+            # lookups form a HISTORY on one reader: every probe may be repeated at once (exists() then open()) and the whole list
+            # is gone through a second time in another order (whatever a lookup remembers is then stale or not)
+            probes = [x for pr in probes for x in ([pr, pr] if rng.chance(0.4) else [pr])]
+            again = list(probes)
+            rng.shuffle(again)
+            probes += again[:12]
+            info_d['lookup history with repeats'] = 1
             for path, kind, node, exists in probes:
                 try:
                     inf = rd.getinfo(path)
